@@ -4,12 +4,15 @@ use crate::engine::DynSub;
 
 pub mod c01;
 pub mod c02;
+pub mod c03;
 pub mod c04;
 pub mod c05;
 pub mod c06;
 pub mod c08;
 pub mod c09;
 pub mod c10;
+pub mod c11;
+pub mod c12;
 pub mod c13;
 pub mod c14;
 pub mod c15;
@@ -50,12 +53,15 @@ macro_rules! registry {
 registry! {
     "C01" => c01,
     "C02" => c02,
+    "C03" => c03,
     "C04" => c04,
     "C05" => c05,
     "C06" => c06,
     "C08" => c08,
     "C09" => c09,
     "C10" => c10,
+    "C11" => c11,
+    "C12" => c12,
     "C13" => c13,
     "C14" => c14,
     "C15" => c15,
